@@ -3,7 +3,7 @@
 # (at HEAD) plus a scratch copy of /verif whose harness is pointed at that worktree, all under /tmp/scratch/lanes and
 # removed afterwards. /repo itself is not touched (first contact and the re-test after strengthening of every change
 # were done against /repo itself with tools/seed_eval.sh; this script only refreshes the whole matrix quickly).
-# usage: tools/seed_lanes.sh [lanes=4] [ID|name filter]
+# usage: [VERIF_SEED=n LANES_NO_WRITE=1] tools/seed_lanes.sh [lanes=4] [ID|name filter]
 LANES=${1:-4}; ONLY="$2"
 BASE=/tmp/scratch/lanes
 cd /verif || exit 2
@@ -32,6 +32,7 @@ lane() {
     out=$("$L/verif/vcheck" "$id" quick 2>&1 | grep -v "^KNOWN-FINDING" | grep -E "^(VIOLATION|OK|generator|vcheck)|signature:|reproducible" | head -2 | tr '\n' ' ' | sed "s#$L/verif#/verif#g" | cut -c1-300)
     git -C "$L/repo" checkout -- .
     echo "$n: $out"
+    [ -n "$LANES_NO_WRITE" ] && continue   # (robustness runs under another VERIF_SEED: report only)
     python3 - "/verif/seeded/$n/meta.json" "$out" <<'PY'
 import json,sys
 p,out=sys.argv[1:3]
